@@ -4,6 +4,7 @@ usage: eval_refactor.py <worktree> <tag>   (patches: <worktree>/REFACTOR<k>.patc
 For each patch: confirm the 94 tests pass (in the worktree), apply to /repo, run all checks, restore /repo.
 Results are stored under /verif/refactors/<tag>-<k>/{patch.diff, meta.json}."""
 import sys, os, json, glob, re, shutil, subprocess
+os.environ['VERIF_EVIDENCE_DIR'] = '/tmp/pp-evidence-scratch'
 VERIF = os.path.dirname(os.path.dirname(os.path.abspath(__file__)))
 
 
